@@ -302,6 +302,10 @@ def classify(db, url):
     for c in ("chain-links-to-slot-of-another-key", "chain-links-to-slot-of-another-chain-of-the-key"):
         if c in classes:
             return c
+    # a slot of this key whose header lies inside the (truncated) file while its payload does not
+    for i, sl in d.items():
+        if sl.key == key and db.offset(i) + rockdb.CELL_SIZE + sl.payload_size > len(db.data):
+            return "slot-payload-beyond-end-of-file"
     return "other"
 
 
@@ -327,7 +331,7 @@ def _probe_all(env, port, content, nurls, r, stage, extra=None, db=None, sizes_m
             continue
         if not m.complete and any(content.body(u, v).startswith(m.body) for v in served):
             # an entry was made readable whose stored bytes do not add up to the response it announces
-            r.fail("hit-truncated:" + stage, "%s: u%d: only-if-cached 200 delivered only %d body bytes (a correct prefix) and ended early%s" % (stage, u, len(m.body), extra or ""))
+            r.fail("hit-truncated:" + (cls if cls != "other" else stage), "%s: u%d: only-if-cached 200 delivered only %d body bytes (a correct prefix) and ended early%s" % (stage, u, len(m.body), extra or ""))
             continue
         r.fail("hit-is-not-a-complete-origin-version:" + (cls if cls != "other" else "other:" + stage),
                "%s: u%d: only-if-cached 200 with %d body bytes (complete=%s) equal to none of the versions the origin served for this URL (sizes %s)%s" % (
